@@ -35,6 +35,27 @@ ASSUMPTIONS = [
 SIMPLIFY = {}
 WATCHDOG_S = {"quick": 900, "thorough": 4 * 3600}
 
+def _other_operands_parser():
+    from behave.tag_expression.parser import TagExpressionParser
+    from behave.tag_expression.model import Literal
+
+    class OtherOperandsParser(TagExpressionParser):
+        @classmethod
+        def make_operand(cls, text):
+            return Literal(text.lower() + u"!")
+    return OtherOperandsParser
+
+
+class _Lazy(object):
+    def __getattr__(self, name):
+        cls = _other_operands_parser()
+        globals()["_OtherOperandsParser"] = cls
+        return getattr(cls, name)
+
+
+_OtherOperandsParser = _Lazy()
+
+
 # ---------------------------------------------------------------------------
 # universe
 # ---------------------------------------------------------------------------
@@ -446,6 +467,14 @@ def check_expr(case):
     if ast == ["true"]:
         res.label("empty")
     v2 = TagExpressionProtocol.V2
+    if len(str(arg)) % 3 == 0:
+        # a user-defined parser (subclass of TagExpressionParser with its own operands: a case-insensitive report filter)
+        # has read the same text earlier in this process: behave's own reading of it is not affected
+        try:
+            _OtherOperandsParser.parse(arg if isinstance(arg, str) else u" and ".join(u"(%s)" % a for a in arg))
+        except Exception:   # noqa: what the user's parser makes of it is not the subject
+            pass
+        res.label("a-user-defined-parser-subclass-read-the-text-before")
     try:
         expr = make_tag_expression(arg, v2)
     except TagExpressionError as e:
